@@ -61,16 +61,16 @@ Proof.
   - apply IH; [apply wstep_sticky; exact H|exact N].
 Qed.
 
-Lemma close_true_sets_err w : snd (wstep w Close) = RBool true -> w_err (fst (wstep w Close)) = true.
+Lemma close_true_sets_err w b : snd (wstep w (Close b)) = RBool true -> w_err (fst (wstep w (Close b))) = true.
 Proof. destruct w as [ms er ac cl]; cbn; destruct ac, ms; cbn; congruence. Qed.
 
-Lemma closed_then_accept_fails pre post w i :
-  snd (wstep (fst (wrun w pre)) Close) = RBool true ->
+Lemma closed_then_accept_fails pre post w b i :
+  snd (wstep (fst (wrun w pre)) (Close b)) = RBool true ->
   nth_error post i = Some Accept ->
-  nth_error (snd (wrun w (pre ++ Close :: post))) (length pre + 1 + i) = Some RErr
-  /\ ~ In RStream (snd (wrun (fst (wstep (fst (wrun w pre)) Close)) post)).
+  nth_error (snd (wrun w (pre ++ Close b :: post))) (length pre + 1 + i) = Some RErr
+  /\ ~ In RStream (snd (wrun (fst (wstep (fst (wrun w pre)) (Close b))) post)).
 Proof.
-  intros C N. pose proof (close_true_sets_err _ C) as E. split.
+  intros C N. pose proof (close_true_sets_err _ _ C) as E. split.
   - rewrite wrun_app. cbn [snd]. rewrite wrun_cons. cbn [snd].
     assert (L : length (snd (wrun w pre)) = length pre).
     { clear. revert w. induction pre as [|o pre IH]; intros w; [reflexivity|].
@@ -79,6 +79,23 @@ Proof.
     replace (length pre + 1 + i - length pre)%nat with (S i) by lia. cbn [nth_error].
     apply accept_fails_when_err; assumption.
   - apply no_stream_once_taken. right. exact E.
+Qed.
+
+(* a Close call that reaches the underlying stream (not accepted, ms present)
+   returns true and leaves the value closed WHATEVER the stream's own Close
+   returned: no later call hands the stream out *)
+Lemma close_reaching_stream_closes_value w b post :
+  w_acc w = false -> w_ms w = true ->
+  snd (wstep w (Close b)) = RBool true
+  /\ w_closes (fst (wstep w (Close b))) = S (w_closes w)
+  /\ ~ In RStream (snd (wrun (fst (wstep w (Close b))) post))
+  /\ forall i, nth_error post i = Some Accept ->
+               nth_error (snd (wrun (fst (wstep w (Close b))) post)) i = Some RErr.
+Proof.
+  intros A M. destruct w as [ms er ac cl]. cbn in A, M. subst. cbn.
+  split; [reflexivity|]. split; [reflexivity|]. split.
+  - apply no_stream_once_taken. right. reflexivity.
+  - intros i N. apply accept_fails_when_err; [reflexivity|exact N].
 Qed.
 
 (* the wrapper never closes a stream it has handed out (and never hands out one it closed) *)
